@@ -50,7 +50,7 @@ func (m *Mutex) Lock() {
 // TryLock mirrors sync.Mutex.TryLock.
 func (m *Mutex) TryLock() bool {
 	if vsched.Active() {
-		vsched.Step(vsched.Op1("Mutex.TryLock", m.obj(), vsched.KLock))
+		vsched.Step(vsched.Op1("Mutex.TryLock", m.obj(), vsched.KTry))
 		if m.locked {
 			return false
 		}
@@ -176,6 +176,39 @@ func (m *RWMutex) Unlock() {
 		return
 	}
 	m.real.Unlock()
+}
+
+// TryLock mirrors sync.RWMutex.TryLock.
+func (m *RWMutex) TryLock() bool {
+	if vsched.Active() {
+		vsched.Step(vsched.Op1("RWMutex.TryLock", m.obj(), vsched.KTry))
+		if m.announced || m.writing || m.readers > 0 {
+			return false
+		}
+		m.announced, m.writing = true, true
+		m.wowner = vsched.CurThread()
+		return true
+	}
+	if vsched.Unwinding() {
+		return true
+	}
+	return m.real.TryLock()
+}
+
+// TryRLock mirrors sync.RWMutex.TryRLock.
+func (m *RWMutex) TryRLock() bool {
+	if vsched.Active() {
+		vsched.Step(vsched.Op1("RWMutex.TryRLock", m.obj(), vsched.KTry))
+		if m.announced {
+			return false
+		}
+		m.readers++
+		return true
+	}
+	if vsched.Unwinding() {
+		return true
+	}
+	return m.real.TryRLock()
 }
 
 // RLocker mirrors sync.RWMutex.RLocker.
@@ -356,19 +389,42 @@ func (p *Pool) Put(x interface{}) {
 	p.real.Put(x)
 }
 
-// Map mirrors sync.Map (the subset used by p9's file systems).
+// Map mirrors sync.Map. Under the scheduler the keys are kept in insertion
+// order so that Range is deterministic.
 type Map struct {
 	real sync.Map
 	hdr  vsched.ObjHdr
 	m    map[interface{}]interface{}
+	keys []interface{}
 }
 
 func (m *Map) obj() vsched.ObjID {
 	id, fresh := m.hdr.Obj()
 	if fresh {
 		m.m = make(map[interface{}]interface{})
+		m.keys = nil
 	}
 	return id
+}
+
+func (m *Map) set(k, v interface{}) {
+	if _, ok := m.m[k]; !ok {
+		m.keys = append(m.keys, k)
+	}
+	m.m[k] = v
+}
+
+func (m *Map) del(k interface{}) {
+	if _, ok := m.m[k]; !ok {
+		return
+	}
+	delete(m.m, k)
+	for i := range m.keys {
+		if m.keys[i] == k {
+			m.keys = append(m.keys[:i:i], m.keys[i+1:]...)
+			break
+		}
+	}
 }
 
 // Load mirrors sync.Map.Load.
@@ -385,7 +441,7 @@ func (m *Map) Load(k interface{}) (interface{}, bool) {
 func (m *Map) Store(k, v interface{}) {
 	if vsched.Active() {
 		vsched.Step(vsched.Op1("Map.Store", m.obj(), vsched.KMemWrite))
-		m.m[k] = v
+		m.set(k, v)
 		return
 	}
 	m.real.Store(k, v)
@@ -398,27 +454,85 @@ func (m *Map) LoadOrStore(k, v interface{}) (interface{}, bool) {
 		if old, ok := m.m[k]; ok {
 			return old, true
 		}
-		m.m[k] = v
+		m.set(k, v)
 		return v, false
 	}
 	return m.real.LoadOrStore(k, v)
+}
+
+// LoadAndDelete mirrors sync.Map.LoadAndDelete.
+func (m *Map) LoadAndDelete(k interface{}) (interface{}, bool) {
+	if vsched.Active() {
+		vsched.Step(vsched.Op1("Map.LoadAndDelete", m.obj(), vsched.KMemWrite))
+		v, ok := m.m[k]
+		m.del(k)
+		return v, ok
+	}
+	return m.real.LoadAndDelete(k)
 }
 
 // Delete mirrors sync.Map.Delete.
 func (m *Map) Delete(k interface{}) {
 	if vsched.Active() {
 		vsched.Step(vsched.Op1("Map.Delete", m.obj(), vsched.KMemWrite))
-		delete(m.m, k)
+		m.del(k)
 		return
 	}
 	m.real.Delete(k)
 }
 
-// Range mirrors sync.Map.Range.
+// Swap mirrors sync.Map.Swap.
+func (m *Map) Swap(k, v interface{}) (interface{}, bool) {
+	if vsched.Active() {
+		vsched.Step(vsched.Op1("Map.Swap", m.obj(), vsched.KMemWrite))
+		old, ok := m.m[k]
+		m.set(k, v)
+		return old, ok
+	}
+	return m.real.Swap(k, v)
+}
+
+// CompareAndSwap mirrors sync.Map.CompareAndSwap.
+func (m *Map) CompareAndSwap(k, o, n interface{}) bool {
+	if vsched.Active() {
+		vsched.Step(vsched.Op1("Map.CompareAndSwap", m.obj(), vsched.KMemWrite))
+		if cur, ok := m.m[k]; ok && cur == o {
+			m.m[k] = n
+			return true
+		}
+		return false
+	}
+	return m.real.CompareAndSwap(k, o, n)
+}
+
+// CompareAndDelete mirrors sync.Map.CompareAndDelete.
+func (m *Map) CompareAndDelete(k, o interface{}) bool {
+	if vsched.Active() {
+		vsched.Step(vsched.Op1("Map.CompareAndDelete", m.obj(), vsched.KMemWrite))
+		if cur, ok := m.m[k]; ok && cur == o {
+			m.del(k)
+			return true
+		}
+		return false
+	}
+	return m.real.CompareAndDelete(k, o)
+}
+
+// Range mirrors sync.Map.Range. Like the real one it does not hold the map
+// for the whole iteration: the keys are those present when Range starts, each
+// value is looked up (one more visible read) when its turn comes.
 func (m *Map) Range(f func(k, v interface{}) bool) {
 	if vsched.Active() {
 		vsched.Step(vsched.Op1("Map.Range", m.obj(), vsched.KMemRead))
-		for k, v := range m.m {
+		keys := append([]interface{}{}, m.keys...)
+		for i, k := range keys {
+			if i > 0 {
+				vsched.Step(vsched.Op1("Map.Range(next)", m.obj(), vsched.KMemRead))
+			}
+			v, ok := m.m[k]
+			if !ok {
+				continue
+			}
 			if !f(k, v) {
 				return
 			}
@@ -426,4 +540,111 @@ func (m *Map) Range(f func(k, v interface{}) bool) {
 		return
 	}
 	m.real.Range(f)
+}
+
+// Cond mirrors sync.Cond. Wait enqueues the caller while it still holds L,
+// releases L, and is enabled again only after a Signal or Broadcast chose it
+// (Go's Cond has no spurious wake-ups); Signal wakes the longest waiter.
+type Cond struct {
+	L Locker
+
+	mk      sync.Once
+	real    *sync.Cond
+	hdr     vsched.ObjHdr
+	waiters []*condWaiter
+}
+
+type condWaiter struct{ woken bool }
+
+// NewCond mirrors sync.NewCond.
+func NewCond(l Locker) *Cond { return &Cond{L: l} }
+
+func (c *Cond) obj() vsched.ObjID {
+	id, fresh := c.hdr.Obj()
+	if fresh {
+		c.waiters = nil
+	}
+	return id
+}
+
+func (c *Cond) r() *sync.Cond {
+	c.mk.Do(func() { c.real = sync.NewCond(c.L) })
+	return c.real
+}
+
+// Wait mirrors sync.Cond.Wait.
+func (c *Cond) Wait() {
+	if vsched.Active() {
+		id := c.obj()
+		w := &condWaiter{}
+		vsched.Step(vsched.Op1("Cond.Wait(enqueue)", id, vsched.KMemWrite))
+		c.waiters = append(c.waiters, w)
+		c.L.Unlock()
+		vsched.StepWhen(vsched.Op1("Cond.Wait(woken)", id, vsched.KMemWrite), func() bool { return w.woken })
+		c.L.Lock()
+		return
+	}
+	if vsched.Unwinding() {
+		return
+	}
+	c.r().Wait()
+}
+
+// Signal mirrors sync.Cond.Signal.
+func (c *Cond) Signal() {
+	if vsched.Active() {
+		vsched.Step(vsched.Op1("Cond.Signal", c.obj(), vsched.KMemWrite))
+		if len(c.waiters) > 0 {
+			c.waiters[0].woken = true
+			c.waiters = c.waiters[1:]
+		}
+		return
+	}
+	if vsched.Unwinding() {
+		return
+	}
+	c.r().Signal()
+}
+
+// Broadcast mirrors sync.Cond.Broadcast.
+func (c *Cond) Broadcast() {
+	if vsched.Active() {
+		vsched.Step(vsched.Op1("Cond.Broadcast", c.obj(), vsched.KMemWrite))
+		for _, w := range c.waiters {
+			w.woken = true
+		}
+		c.waiters = nil
+		return
+	}
+	if vsched.Unwinding() {
+		return
+	}
+	c.r().Broadcast()
+}
+
+// OnceFunc mirrors sync.OnceFunc (without its re-panicking refinement).
+func OnceFunc(f func()) func() {
+	var o Once
+	return func() { o.Do(f) }
+}
+
+// OnceValue mirrors sync.OnceValue.
+func OnceValue[T any](f func() T) func() T {
+	var o Once
+	var v T
+	return func() T {
+		o.Do(func() { v = f() })
+		return v
+	}
+}
+
+// OnceValues mirrors sync.OnceValues.
+func OnceValues[T1, T2 any](f func() (T1, T2)) func() (T1, T2) {
+	var o Once
+	var v1 T1
+	var v2 T2
+	return func() (T1, T2) {
+		o.Do(func() { v1, v2 = f() })
+		return v1, v2
+	}
 }
